@@ -54,5 +54,9 @@ def simple_cpp_functions():
           "code": ["double t1 = x * 2;", "double result = t1 + y;"], "return_type": "double"}
     f2 = {"metadata_type": "add_cpp_function", "name": "vf_sq", "include_files": ["cmath"], "arguments": ["val"],
           "code": ["double my_r = std::sqrt(val * val) + 1;"], "result_name": "my_r", "return_type": "double"}
+    # a function that takes nothing from the query and reads per-event framework state (the model's current event id):
+    # opaque to the translator, different for every event
+    f3 = {"metadata_type": "add_cpp_function", "name": "vf_evt", "include_files": [], "arguments": [],
+          "code": ["double result = (double) (vf::current_event()->id % 97);"], "return_type": "double"}
     env = {"vf_lin": lambda x, y: x * 2 + y, "vf_sq": lambda v: abs(v) + 1}
-    return [f1, f2], (("vf_lin", 2), ("vf_sq", 1)), env
+    return [f1, f2, f3], (("vf_lin", 2), ("vf_sq", 1), ("vf_evt", 0)), env
